@@ -26,6 +26,14 @@ type vdCell struct {
 	Rem    int    // bytes that remained in the reading decoder after the header
 	Caller string // sarama function that called the primitive
 	Length bool   // the primitive interprets the header as a length / count
+	Val    int64  // value of the header in the valid encoding (uvarint cells: the raw number)
+}
+
+// vdExt: a byte extent handed out by getSubset / getRawBytes (its length came from a plain integer cell)
+type vdExt struct {
+	Kind       string // subset | raw
+	Start, End int
+	Caller     string
 }
 
 type vdPush struct {
@@ -37,6 +45,7 @@ type vdPush struct {
 type vdTape struct {
 	cells  []vdCell
 	pushes []vdPush
+	exts   []vdExt
 }
 
 func (tp *vdTape) hasCrc() bool {
@@ -126,8 +135,25 @@ func (d *vdTapeDec) log(enc, prim string, off0 int, length bool, err error) {
 	if off0+w > len(d.rd.raw) {
 		return
 	}
+	var val int64
+	hb := d.rd.raw[off0 : off0+w]
+	switch enc {
+	case "int8":
+		val = int64(int8(hb[0]))
+	case "int16":
+		val = int64(int16(binary.BigEndian.Uint16(hb)))
+	case "int32":
+		val = int64(int32(binary.BigEndian.Uint32(hb)))
+	case "int64":
+		val = int64(binary.BigEndian.Uint64(hb))
+	case "varint":
+		val, _ = binary.Varint(hb)
+	case "uvarint":
+		u, _ := binary.Uvarint(hb)
+		val = int64(u)
+	}
 	d.tp.cells = append(d.tp.cells, vdCell{Enc: enc, Prim: prim, Off: d.base + off0, W: w,
-		Rem: len(d.rd.raw) - off0 - w, Caller: vdCaller(), Length: length})
+		Rem: len(d.rd.raw) - off0 - w, Caller: vdCaller(), Length: length, Val: val})
 }
 
 func (d *vdTapeDec) getInt8() (int8, error) {
@@ -221,7 +247,14 @@ func (d *vdTapeDec) getCompactBytes() ([]byte, error) {
 	return v, err
 }
 
-func (d *vdTapeDec) getRawBytes(length int) ([]byte, error) { return d.rd.getRawBytes(length) }
+func (d *vdTapeDec) getRawBytes(length int) ([]byte, error) {
+	o := d.rd.off
+	v, err := d.rd.getRawBytes(length)
+	if err == nil && d.tp != nil {
+		d.tp.exts = append(d.tp.exts, vdExt{Kind: "raw", Start: d.base + o, End: d.base + d.rd.off, Caller: vdCaller()})
+	}
+	return v, err
+}
 
 func (d *vdTapeDec) getString() (string, error) {
 	o := d.rd.off
@@ -287,6 +320,9 @@ func (d *vdTapeDec) getSubset(length int) (packetDecoder, error) {
 	if err != nil {
 		return nil, err
 	}
+	if d.tp != nil {
+		d.tp.exts = append(d.tp.exts, vdExt{Kind: "subset", Start: d.base + o, End: d.base + d.rd.off, Caller: vdCaller()})
+	}
 	return &vdTapeDec{rd: sub.(*realDecoder), base: d.base + o, tp: d.tp}, nil
 }
 
@@ -344,7 +380,8 @@ type vdCase struct {
 	Caller string `json:"caller"`
 	Fix    bool   `json:"fix"` // enclosing CRC / length fields recomputed (a consistent adversary)
 	Pos    int    `json:"pos"`
-	Dmg    bool   `json:"dmg"`  // alters a checksummed extent, or a length now disagrees with the data
+	Dmg    bool   `json:"dmg"`    // alters a checksummed extent, or a length now disagrees with the data
+	Strict bool   `json:"strict"` // everything is consistent (CRCs, enclosing lengths) except ONE length/count, or junk trails inside an extent
 	RunVer int    `json:"runver"` // >= 0: decode with this version instead of the one the bytes were written in
 	inner  []byte
 }
@@ -356,8 +393,16 @@ type vdVal struct {
 	enc  []byte
 }
 
-func vdI16(v int) []byte { b := make([]byte, 2); binary.BigEndian.PutUint16(b, uint16(int16(v))); return b }
-func vdI32(v int) []byte { b := make([]byte, 4); binary.BigEndian.PutUint32(b, uint32(int32(v))); return b }
+func vdI16(v int) []byte {
+	b := make([]byte, 2)
+	binary.BigEndian.PutUint16(b, uint16(int16(v)))
+	return b
+}
+func vdI32(v int) []byte {
+	b := make([]byte, 4)
+	binary.BigEndian.PutUint32(b, uint32(int32(v)))
+	return b
+}
 func vdVar(v int64) []byte {
 	b := make([]byte, binary.MaxVarintLen64)
 	return b[:binary.PutVarint(b, v)]
@@ -460,6 +505,165 @@ func vdMutable(c vdCell) bool {
 	return false
 }
 
+// ---------------------------------------------------------------- consistent damage: one length disagrees
+
+// vdPlainLen: a plain integer cell (getInt32 / getVarint) that the calling decoder uses as a byte length or a
+// count; returns the extent it delimits ([start,end), -1 when it is a count)
+func vdPlainLen(tp *vdTape, i int) (isLen bool, start, end int) {
+	c := tp.cells[i]
+	switch {
+	case c.Prim == "getInt32" && c.Val >= 0:
+		// the length of a getSubset extent that starts right behind the cell (FetchResponseBlock.recordsSize)
+		for _, e := range tp.exts {
+			if e.Kind == "subset" && e.Start == c.Off+c.W && int64(e.End-e.Start) == c.Val {
+				return true, e.Start, e.End
+			}
+		}
+		// RecordBatch.decode: FirstOffset (int64), then the batch length
+		if c.Caller == "(*RecordBatch).decode" && i > 0 && tp.cells[i-1].Prim == "getInt64" && tp.cells[i-1].Caller == c.Caller &&
+			tp.cells[i-1].Off+8 == c.Off {
+			return true, c.Off + c.W, c.Off + c.W + int(c.Val)
+		}
+	case c.Prim == "getVarint" && c.Caller == "(*Record).decode":
+		// Record.decode: ... value (varint bytes), then the header count
+		if i > 0 && tp.cells[i-1].Prim == "getVarintBytes" && tp.cells[i-1].Caller == c.Caller {
+			if i < 2 || tp.cells[i-2].Prim == "getVarintBytes" && tp.cells[i-2].Caller == c.Caller {
+				return true, -1, -1
+			}
+		}
+	}
+	return false, -1, -1
+}
+
+// vdRefit makes the encoding consistent again after the bytes at pos grew by delta: plain byte lengths whose
+// extent contains pos are adjusted, then the push fields (lengths, CRCs), innermost first. skip: index of a
+// cell that must keep its (deliberately wrong) value.
+func vdRefit(tp *vdTape, b []byte, pos, delta, skip int) []byte {
+	if delta != 0 {
+		for i, c := range tp.cells {
+			if i == skip || c.Enc != "int32" {
+				continue
+			}
+			if ok, st, en := vdPlainLen(tp, i); ok && st >= 0 && st <= pos && pos < en && c.Off < pos {
+				binary.BigEndian.PutUint32(b[c.Off:], uint32(int32(c.Val)+int32(delta)))
+			}
+		}
+	}
+	out, _ := vdFixup(tp, b, pos, delta)
+	return out
+}
+
+func vdEncodeLike(c vdCell, v int64) []byte {
+	switch c.Enc {
+	case "int16":
+		return vdI16(int(v))
+	case "int32":
+		return vdI32(int(v))
+	case "varint":
+		return vdVar(v)
+	case "uvarint":
+		return vdUvar(uint64(v))
+	}
+	return nil
+}
+
+// vdConsistentCases: (a) every length / count cell <- its value -1 / +1 with every CRC and every enclosing length
+// recomputed, so that ONLY this cell disagrees with the data; the same for the push length fields themselves;
+// (b) junk trailing inside every length-delimited extent (the extent's own length and everything around it
+// adjusted), and behind the whole encoding.
+func vdConsistentCases(s *vdSubject, tp *vdTape, add func(vdCase)) {
+	valid := s.valid
+	for i, c := range tp.cells {
+		isLen := c.Length
+		if !isLen {
+			isLen, _, _ = vdPlainLen(tp, i)
+		}
+		if !isLen || c.Prim == "getEmptyTaggedFieldArray" {
+			continue
+		}
+		for _, d := range []int64{-1, 1} {
+			nv := c.Val + d
+			if c.Enc == "uvarint" && nv < 1 { // 0 is the null marker of compact encodings: a different value, not an off-by-one
+				continue
+			}
+			if nv < -1 || (c.Enc == "int16" && nv > math.MaxInt16) {
+				continue
+			}
+			enc := vdEncodeLike(c, nv)
+			if enc == nil {
+				continue
+			}
+			b := vdSplice(valid, c.Off, c.W, enc)
+			b = vdRefit(tp, b, c.Off, len(enc)-c.W, i)
+			trig := "len=orig+1"
+			if d < 0 {
+				trig = "len=orig-1"
+			}
+			add(vdCase{Kind: "offby1", Trig: trig, Prim: c.Prim, Caller: c.Caller, Fix: true, Strict: true, Pos: c.Off, inner: b})
+		}
+	}
+	for _, p := range tp.pushes {
+		if p.End < 0 || (p.Kind != "len32" && p.Kind != "varlen") {
+			continue
+		}
+		orig := int64(p.End - p.HdrEnd)
+		for _, d := range []int64{-1, 1} {
+			if orig+d < 0 {
+				continue
+			}
+			var enc []byte
+			if p.Kind == "len32" {
+				enc = vdI32(int(orig + d))
+			} else {
+				enc = vdVar(orig + d)
+			}
+			w := p.HdrEnd - p.Start
+			b := vdSplice(valid, p.Start, w, enc)
+			b = vdRefit(tp, b, p.Start, len(enc)-w, -1)
+			trig := "len=orig+1"
+			if d < 0 {
+				trig = "len=orig-1"
+			}
+			add(vdCase{Kind: "offby1", Trig: trig, Prim: "push:" + p.Kind, Caller: "-", Fix: true, Strict: true, Pos: p.Start, inner: b})
+		}
+	}
+	// (b) junk
+	ends := map[int]bool{}
+	for _, p := range tp.pushes {
+		if p.End > p.HdrEnd {
+			ends[p.End] = true
+		}
+	}
+	for _, e := range tp.exts {
+		if e.End > e.Start {
+			ends[e.End] = true
+		}
+	}
+	for i := range tp.cells {
+		if ok, st, en := vdPlainLen(tp, i); ok && st >= 0 && en > st && en <= len(valid) {
+			ends[en] = true
+		}
+	}
+	var el []int
+	for e := range ends {
+		if e > 0 && e <= len(valid) {
+			el = append(el, e)
+		}
+	}
+	sort.Ints(el)
+	for _, e := range el {
+		for _, junk := range [][]byte{{0x00}, {0xff, 0x01, 0x7f}} {
+			b := vdSplice(valid, e, 0, junk)
+			b = vdRefit(tp, b, e-1, len(junk), -1)
+			add(vdCase{Kind: "junk", Trig: "trailing-junk", Prim: "-", Caller: "-", Fix: true, Strict: true, Pos: e, inner: b})
+		}
+	}
+	for _, junk := range [][]byte{{0x00}, {0xff, 0x01, 0x7f}} {
+		add(vdCase{Kind: "junk", Trig: "trailing-junk", Prim: "-", Caller: "-", Fix: true, Strict: true, Pos: len(valid),
+			inner: append(append([]byte(nil), valid...), junk...)})
+	}
+}
+
 // vdCases enumerates the mutations of one subject in a fixed order; identical byte strings
 // are kept once. thorough adds denser bit flips and, seeded, random damage.
 func vdCases(s *vdSubject, tp *vdTape, thorough bool, rnd *rand.Rand) []vdCase {
@@ -539,6 +743,13 @@ func vdCases(s *vdSubject, tp *vdTape, thorough bool, rnd *rand.Rand) []vdCase {
 				k = "crcflip"
 			}
 			add(vdCase{Kind: k, Trig: "bitflip", Prim: c.Prim, Caller: c.Caller, Pos: f[0], Dmg: k == "crcflip", inner: b})
+		}
+	}
+	// 4b. consistent damage: exactly one length / count is wrong, or junk trails inside an extent
+	vdConsistentCases(s, tp, add)
+	if s.extra != nil {
+		for _, c := range s.extra(tp) {
+			add(c)
 		}
 	}
 	// 5. the unaltered bytes decoded as another version of the same message
